@@ -47,13 +47,56 @@ func methodCall(name string) func(ssa.CallInstruction) bool {
 }
 
 // precedes: every call matching `later` is unreachable without first executing a call matching `first`.
+// The calls may have been moved into private helpers: when `later` is not called in fn itself the
+// helper call through which it happens is the sink, and when neither is, the order is decided
+// inside the helper that hosts `later` (obligations stay attributed to fn).
 func precedes(c *core.Ctx, rule string, fn *ssa.Function, firstDesc string, first func(ssa.CallInstruction) bool, laterDesc string, later func(ssa.CallInstruction) bool, opt *eng.Opt) {
 	ls := ir.Calls(fn, later)
-	if len(ls) == 0 {
+	if len(ls) > 0 {
+		eng.MustPassCall(c, rule, fn, firstDesc, first, ir.CallSinks(ls, laterDesc), laterDesc, opt)
+		return
+	}
+	through := ir.CallsThrough(fn, later, 2)
+	if len(through) == 0 {
 		c.Broken(rule, fn, firstDesc+" ≺ "+laterDesc, c.P.Rel(fn.Pos()), "no call of "+laterDesc)
 		return
 	}
-	eng.MustPassCall(c, rule, fn, firstDesc, first, ir.CallSinks(ls, laterDesc), laterDesc, opt)
+	if len(ir.Calls(fn, first)) > 0 || opt != nil {
+		eng.MustPassCall(c, rule, fn, firstDesc, first, ir.CallSinks(through, laterDesc), laterDesc, opt)
+		return
+	}
+	for _, t := range through {
+		h := t.Common().StaticCallee()
+		if h == nil {
+			continue
+		}
+		c.Attribute(h, fn)
+		unbind := ir.BindParams(h, t.Common().Args)
+		precedes(c, rule, h, firstDesc, first, laterDesc, later, nil)
+		unbind()
+	}
+}
+
+// laterSinks: the calls matching `later` as sinks for a dominance obligation about fn — in fn, or
+// (host != fn) inside the private helper that performs them when `first` is there too.
+func laterSinks(fn *ssa.Function, first, later func(ssa.CallInstruction) bool, desc string) (host *ssa.Function, sinks []ir.Sink, release func()) {
+	release = func() {}
+	if ls := ir.Calls(fn, later); len(ls) > 0 {
+		return fn, ir.CallSinks(ls, desc), release
+	}
+	through := ir.CallsThrough(fn, later, 2)
+	if len(through) == 0 {
+		return fn, nil, release
+	}
+	if len(ir.Calls(fn, first)) > 0 {
+		return fn, ir.CallSinks(through, desc), release
+	}
+	t := through[0]
+	h := t.Common().StaticCallee()
+	if h == nil {
+		return fn, nil, release
+	}
+	return h, ir.CallSinks(ir.Calls(h, later), desc), ir.BindParams(h, t.Common().Args)
 }
 
 func errNilOfCall(pred func(ssa.CallInstruction) bool) ir.Guard {
@@ -69,14 +112,26 @@ func runC12(c *core.Ctx) {
 			for _, cm := range commits {
 				precedes(c, "C12.save≺commit", sb, s, methodCall(s), cm.desc, storeCall(cm.field, "CommitTo"), nil)
 			}
-			eng.Dominates(c, "C12.save≺commit", sb, eng.NamedGuard{Name: s + " err==nil", G: errNilOfCall(methodCall(s))},
-				ir.CallSinks(ir.Calls(sb, storeCall("blockStore", "CommitTo")), "blockStore.CommitTo"), "blockStore.CommitTo", nil)
+			{
+				host, sinks, release := laterSinks(sb, methodCall(s), storeCall("blockStore", "CommitTo"), "blockStore.CommitTo")
+				if host != sb {
+					c.Attribute(host, sb)
+				}
+				eng.Dominates(c, "C12.save≺commit", host, eng.NamedGuard{Name: s + " err==nil", G: errNilOfCall(methodCall(s))}, sinks, "blockStore.CommitTo", nil)
+				release()
+			}
 		}
 		for i := 0; i+1 < len(commits); i++ {
 			a, b := commits[i], commits[i+1]
 			precedes(c, "C12.commit-order", sb, a.desc, storeCall(a.field, "CommitTo"), b.desc, storeCall(b.field, "CommitTo"), nil)
-			eng.Dominates(c, "C12.commit-order", sb, eng.NamedGuard{Name: a.desc + " err==nil", G: errNilOfCall(storeCall(a.field, "CommitTo"))},
-				ir.CallSinks(ir.Calls(sb, storeCall(b.field, "CommitTo")), b.desc), b.desc, nil)
+			{
+				host, sinks, release := laterSinks(sb, storeCall(a.field, "CommitTo"), storeCall(b.field, "CommitTo"), b.desc)
+				if host != sb {
+					c.Attribute(host, sb)
+				}
+				eng.Dominates(c, "C12.commit-order", host, eng.NamedGuard{Name: a.desc + " err==nil", G: errNilOfCall(storeCall(a.field, "CommitTo"))}, sinks, b.desc, nil)
+				release()
+			}
 		}
 		scb := ir.Calls(sb, methodCall("setCurrentBlock"))
 		c.Floor("setCurrentBlock in submitBlock", len(scb), 1)
